@@ -254,7 +254,7 @@ def nt_val(c):
 
 VAL_MC = {'kind': 'mc', 'name': 'values', 'module': 'MC_Values', 'comp': 'val', 'trace': 'TraceVal',
           'cfg': {'quick': 'MC_Values_thorough.cfg', 'thorough': 'MC_Values_thorough.cfg'}, 'invariants': ['TypeOK']}
-VAL_RANDOM = {'kind': 'gen', 'name': 'randomvalues', 'gen': val_random, 'comp': 'val', 'trace': 'TraceVal'}
+VAL_RANDOM = {'kind': 'gen', 'name': 'randomvalues', 'gen': val_random, 'comp': 'val', 'trace': 'TraceVal', 'variant': 'asan'}
 
 
 # ------------------------------------------------------------------ decoder
